@@ -205,7 +205,7 @@ def synth(name, rng, n):
         '_xmatch': lambda: (P([1, 3, 5, 9, 'x', 40, 10, 55]), P([COL, COL, ROW, ROW2, [[5]]]), P([0, -1, 1]), P([1, -1, 2, -2, 5])),
         '_vlookup': lambda: (P([1, 3, 3.0, 5, 9, 0, 'x', B, 10]), P([TABLE, TABLE, ROW2, COL]), P([1, 2, 3]), P([True, False, 0, 1, 'x'])),
         '_index': lambda: (P([TABLE, COL, [[1, 2, 3]], ROW, (TABLE, COL), (ROW2, ROW)]), P([-1, 0, 1, 2, 9, None]), P([None, 0, 1, 3, 9, -1]), P([1, 2, 3])),
-        '_address': lambda: (P([1, 77]), P([1, 26, 27, 52, 702, 703, 16384]), *P([(), ('1',), ('4',), ('2', 'False'), ('3', 'True', 'Sh')])),
+        '_address': lambda: (P([1, 77, 1048575, 1048576, 1048577, 0, 2]), P([1, 26, 27, 52, 702, 703, 16383, 16384, 16385, 0]), *P([(), ('1',), ('4',), ('2', 'False'), ('3', 'True', 'Sh')])),
         '_sum': lambda: ([P(scal) for _ in range(4)],), '_average': lambda: ([P(NUMS + [B, 'x']) for _ in range(3)],),
         '_min': lambda: ([P(NUMS + ['x', '#N/A', B]) for _ in range(3)],), '_max': lambda: ([P(NUMS + ['x', '#REF!', B]) for _ in range(3)],),
         '_count': lambda: ([[P(scal)], [P(scal)]], [P(scal), '3'], P([[P(scal)], [P(scal), [1, 2, 'x']], [[4, 5.5]], [COL], [P(scal), P(scal)], [[1, [2, [3]]]]])), '_count_blank': lambda: ([P(scal + ['#N/A']) for _ in range(4)],),
